@@ -32,6 +32,8 @@ instance (H : List Op) (c p : Nat × Nat) : Decidable (LinkH H c p) := by unfold
 /-- directly finalized: fast-finalization, or finalization of the slot + notarization of the block -/
 def Direct (H : List Op) (b : Nat × Nat) : Prop := FastH H b ∨ (FinH H b.1 ∧ NotarH H b)
 
+instance (H : List Op) (b : Nat × Nat) : Decidable (Direct H b) := by unfold Direct; infer_instance
+
 /-- finalized = directly finalized or an ancestor (through links in the history) of a finalized block -/
 inductive Final (H : List Op) : Nat × Nat → Prop
   | direct {b : Nat × Nat} : Direct H b → Final H b
